@@ -1,12 +1,12 @@
 package main
 
 import (
-	"math"
 	"fmt"
 	"go/ast"
 	"go/constant"
 	"go/token"
 	"go/types"
+	"math"
 	"sort"
 	"strings"
 
